@@ -225,24 +225,38 @@ def readDefineLine (l : Str) : Option Sym := do
 def isDeclLine (l : Str) : Bool :=
   (dropPrefix? (cs!"const") l).isSome
 
+/-- one body line: a `const` / `constexpr` declaration or a `#define` -/
+def readLineC (backend : Str) (l : Str) : Option Sym :=
+  if isDeclLine l then readConstLine backend l else readDefineLine l
+
+def includeLine : Str := cs!"#include <stdbool.h>"
+
+/-- the optional include block -/
+def stripInclude (ls : List Str) : List Str :=
+  match ls with
+  | inc :: [] :: rest => if inc = includeLine then rest else ls
+  | _ => ls
+
+/-- declarations up to the blank line that is followed by the closing `#endif` line -/
+def readBodyC (backend endline : Str) : List Str → Option (List Sym)
+  | [] => none
+  | l :: rest =>
+    if l = [] then
+      (match rest with
+       | [e] => if e = endline then some [] else none
+       | _ => none)
+    else do
+      let s ← readLineC backend l
+      let ss ← readBodyC backend endline rest
+      some (s :: ss)
+
 /-- the header: guard lines, optional include block, declarations, `#endif` -/
 def readC (backend guard : Str) (text : Str) : Option (List Sym) := do
-  let ls := lines text
-  let ls ← match ls with
+  let ls ← match lines text with
     | a :: b :: [] :: rest =>
       if a = cs!"#ifndef " ++ guard ∧ b = cs!"#define " ++ guard then some rest else none
     | _ => none
-  let ls := match ls with
-    | inc :: [] :: rest => if inc = cs!"#include <stdbool.h>" then rest else ls
-    | _ => ls
-  let rec go : List Str → Option (List Sym)
-    | [] => none
-    | [[], e] => if e = cs!"#endif /* " ++ guard ++ cs!" */" then some [] else none
-    | l :: rest => do
-      let s ← if isDeclLine l then readConstLine backend l else readDefineLine l
-      let ss ← go rest
-      some (s :: ss)
-  go ls
+  readBodyC backend (cs!"#endif /* " ++ guard ++ cs!" */") (stripInclude ls)
 
 /-! ### Rust -/
 
